@@ -5,6 +5,7 @@ import (
 	"github.com/modernizing/coca/pkg/domain/core_domain"
 	"io/ioutil"
 	"log"
+	"sort"
 	"strings"
 )
 
@@ -25,7 +26,14 @@ func (j *RemoveMethodApp) Refactoring(conf string) {
 	startParse(parsedDeps, parsedChange)
 }
 
+type selfRefEdit struct {
+	path     string
+	position core_domain.CodePosition
+	newName  string
+}
+
 func startParse(nodes []core_domain.CodeDataStruct, relates []support.RefactorChangeRelate) {
+	var edits []selfRefEdit
 	for _, pkgNode := range nodes {
 		for _, related := range relates {
 			oldInfo := support.BuildMethodPackageInfo(related.OldObj)
@@ -34,7 +42,7 @@ func startParse(nodes []core_domain.CodeDataStruct, relates []support.RefactorCh
 			if pkgNode.Package+pkgNode.NodeName == oldInfo.Package+oldInfo.Class {
 				for _, method := range pkgNode.Functions {
 					if method.Name == oldInfo.Method {
-						updateSelfRefs(pkgNode, method, newInfo)
+						edits = append(edits, selfRefEdit{pkgNode.FilePath, method.Position, newInfo.Method})
 					}
 				}
 			}
@@ -43,12 +51,31 @@ func startParse(nodes []core_domain.CodeDataStruct, relates []support.RefactorCh
 				for _, methodCall := range method.FunctionCalls {
 					if methodCall.Package+methodCall.NodeName == oldInfo.Package+oldInfo.Class {
 						if methodCall.FunctionName == oldInfo.Method {
-							updateSelfRefs(pkgNode, methodCallToMethodModel(methodCall), newInfo)
+							edits = append(edits, selfRefEdit{pkgNode.FilePath, methodCallToMethodModel(methodCall).Position, newInfo.Method})
 						}
 					}
 				}
 			}
 		}
+	}
+
+	// all positions are those of the files as analysed: rewrite every site once, and each line from its end
+	// backwards, so that a replacement of another length does not move the sites still to come
+	sort.SliceStable(edits, func(i, j int) bool {
+		a, b := edits[i], edits[j]
+		if a.path != b.path {
+			return a.path < b.path
+		}
+		if a.position.StartLine != b.position.StartLine {
+			return a.position.StartLine > b.position.StartLine
+		}
+		return a.position.StartLinePosition > b.position.StartLinePosition
+	})
+	for i, edit := range edits {
+		if i > 0 && edit.path == edits[i-1].path && edit.position == edits[i-1].position {
+			continue
+		}
+		updateSelfRefs(edit.path, edit.position, edit.newName)
 	}
 }
 
@@ -66,8 +93,7 @@ func methodCallToMethodModel(call core_domain.CodeCall) core_domain.CodeFunction
 	}
 }
 
-func updateSelfRefs(node core_domain.CodeDataStruct, method core_domain.CodeFunction, info *support.PackageClassInfo) {
-	path := node.FilePath
+func updateSelfRefs(path string, position core_domain.CodePosition, newName string) {
 	input, err := ioutil.ReadFile(path)
 	if err != nil {
 		log.Fatalln(err)
@@ -76,10 +102,10 @@ func updateSelfRefs(node core_domain.CodeDataStruct, method core_domain.CodeFunc
 	lines := strings.Split(string(input), "\n")
 
 	for i, line := range lines {
-		if i == method.Position.StartLine-1 {
+		if i == position.StartLine-1 {
 			// the columns of the model count characters, not bytes
 			runes := []rune(line)
-			newLine := string(runes[:method.Position.StartLinePosition]) + info.Method + string(runes[method.Position.StopLinePosition:])
+			newLine := string(runes[:position.StartLinePosition]) + newName + string(runes[position.StopLinePosition:])
 			lines[i] = newLine
 		}
 	}
